@@ -56,6 +56,8 @@ def peer_frame(tok, masked):
         return wsref.frame(1, b"\xff\xfe", mask=m)
     if tok == "partial":
         return wsref.frame(1, b"hello", mask=m)[:3]
+    if tok == "trickle":
+        return wsref.frame(2, b"t" * 2100, mask=m)              # delivered two bytes per read by _peer_send
     raise KeyError(tok)
 
 
@@ -108,6 +110,8 @@ class Scen:
         kw = {"autoclose": o.get("autoclose", True), "autoping": o.get("autoping", True)}
         if self.case.get("bigsend"):
             kw["compress"] = 15 if self.side == "client" else True
+        if self.case.get("max_msg_size"):
+            kw["max_msg_size"] = self.case["max_msg_size"]
         if o.get("heartbeat"):
             kw["heartbeat"] = HEARTBEAT
         return kw
@@ -305,6 +309,12 @@ class Scen:
             self.proto_error = True
             self.abnormal_judged = quiet and self._listening(quiet) and self.peer_close_code is None and self.close_t is None
         self.peer_tr.write(data)
+        if tok == "trickle":
+            # an honest peer on a slow link: the frame arrives in more reads than the reader's fragment cap
+            while self.out_tr.deliverable():
+                if not self.out_tr.deliver(2):
+                    break
+            return
         self.out_tr.deliver()
 
     def _listening(self, quiet):
@@ -514,6 +524,9 @@ def cases(quick):
         for pname in ("echo-close", "never-answers"):
             out.append({"name": f"{side}/o0/{pname}/closer+bigsend", "side": side, "opts": opt_sets[0], "peer": peers[pname], "closer": True, "sender": True, "bigsend": True,
                         "faults": ["cancel"]})
+        # one frame trickling in over more reads than the reader's fragment cap (1024 for max_msg_size=4096)
+        out.append({"name": f"{side}/o0/trickled-frame/recv-closes", "side": side, "opts": opt_sets[0], "peer": ["trickle", "close1000"], "closer": False, "sender": False,
+                    "max_msg_size": 4096, "faults": []})
         # the peer stops reading: a producer is parked in flow control when close() is called
         out.append({"name": f"{side}/o0/blocked-writes/closer", "side": side, "opts": opt_sets[0], "peer": [], "closer": True, "sender": True, "blocked_writes": True,
                     "faults": ["drop", "cancel"]})
